@@ -19,3 +19,5 @@ pub use slicer::SlicedBiasComputer;
 
 #[cfg(feature = "llg_verif")]
 pub use parser::VerifState;
+#[cfg(feature = "llg_verif")]
+pub use slicer::{VerifSlice, VERIF_SLICE_LOG};
